@@ -302,10 +302,10 @@ func evaluate(w *workload, objs []*fsobj.Obj, f fault) (o outcome) {
 		if !hang {
 			if hangs > 0 {
 				// a hang that did not reproduce at the same injection point is not a verdict
+				// the verdict is the one of the completed retry at the same injection point (all oracles applied);
+				// the stall is only counted – on a loaded machine a 4 s stall of a ptrace-stopped helper happens
 				o2.labels = append(o2.labels, "hang-not-reproduced")
-				if w.kind == "sequential" {
-					o2.incon = "helper watchdog fired once but not again at the same injection point: " + lastHang
-				}
+				_ = lastHang
 			}
 			return o2
 		}
